@@ -143,6 +143,12 @@ MPT_STRUCT(command)
 #ifdef __cplusplus
 private:
 	command & operator =(const command &from); /* disable copy */
+# if __cplusplus >= 201103L
+public:
+	command(const command &from) = delete; /* (destructor of a copy would end the handler) */
+# else
+	command(const command &from);
+# endif
 public:
 	inline command() : id(0), cmd(0), arg(0)
 	{ }
@@ -188,6 +194,15 @@ public:
 		LogStatus = logger::Debug2,
 		LogAction = logger::Info
 	};
+	/* disable copy: handlers, error handler and reply context are singular */
+# if __cplusplus >= 201103L
+	dispatch(const dispatch &) = delete;
+	dispatch & operator =(const dispatch &) = delete;
+# else
+private:
+	dispatch(const dispatch &);
+	dispatch & operator =(const dispatch &);
+# endif
 protected:
 #else
 MPT_STRUCT(dispatch)
